@@ -85,7 +85,7 @@ def lastNonWs (s : Bytes) : UInt8 := lastNonWsRev s.reverse
 /-- `skipCooked`: the suffix after the closing quote (`[]` for Go's nil). -/
 def skipCooked (quote : UInt8) : Bytes → Bytes
   | [] => []
-  | [x] => if x == quote then [] else []
+  | [_] => []   -- the closing quote as last byte: `s[i+1:]` is empty; anything else: nil
   | x :: y :: ys =>
     if x == quote then y :: ys
     else if x != BSLASH then skipCooked quote (y :: ys)
@@ -162,44 +162,65 @@ def scan : Nat → Int → Int → UInt8 → Bytes → Bytes → Bytes → Bytes
       scan f nB nP (lastNonWs lt.1) (out ++ (pend.reverse ++ c :: r.1)) [] lt.1 lt.2
     else scan f nB nP last out (c :: pend) cs tail
 
+/-- Body of the outer loop for a preprocessor line (`if preproc || (line[0] == '#')`):
+the text appended to dst (after the pending blank lines) and the new state. -/
+def preprocLine (o : Opts) (ii : Nat) (st : St) (line : Bytes) : Bytes × St :=
+  let indent := ii + (if st.preproc then o.indentCount * 2 else 0)
+  let line' := trimTrailingWs line
+  (List.replicate indent o.indentByte ++ (line' ++ [NL]),
+   { st with nBlank := 0, hanging := false, preproc := lastNonWs line' == BSLASH })
+
+/-- The `extern "C" {` / `namespace foo {` test on a non-empty line. -/
+def isExternOrNamespace (line : Bytes) : Bool :=
+  (line.head? == some 101 && hasPrefixAndBrace line extern) ||
+  (line.head? == some 110 && hasPrefixAndBrace line namespace_)
+
+/-- `closeBraces` (number of leading '}' that are output before the scan). -/
+def closeBracesOf (line : Bytes) : Nat :=
+  if isExternOrNamespace line then 0 else countCloseBraces line
+
+/-- `nBraces` after the extern/namespace rule or the leading '}'s (clamped at 0). -/
+def nBracesAtLineStart (st : St) (line : Bytes) : Int :=
+  if isExternOrNamespace line then st.nBraces - 1
+  else if st.nBraces - (countCloseBraces line : Nat) < 0 then 0 else st.nBraces - (countCloseBraces line : Nat)
+
+/-- "Output indentation": the number of indent bytes of a code line. -/
+def codeIndent (o : Opts) (ii : Nat) (st : St) (nB : Int) : Nat :=
+  ii + (if nB > 0 then o.indentCount * nB.toNat else 0)
+     + (if st.nParens > 0 || st.hanging then o.indentCount * 2 else 0)
+
+/-- Body of the outer loop for a code line: the text appended to dst (after the
+pending blank lines), the new state, and the new `tail` ('\n' :: remaining, or []). -/
+def codeLine (o : Opts) (ii : Nat) (st : St) (line tail : Bytes) : Option (Bytes × St × Bytes) :=
+  let cb := closeBracesOf line
+  let nB := nBracesAtLineStart st line
+  let line1 := line.drop cb
+  match scan (line1.length + tail.length + 1) nB st.nParens (lastNonWs line1) [] [] line1 tail with
+  | none => none
+  | some r =>
+    some (List.replicate (codeIndent o ii st nB) o.indentByte ++
+            (line.take cb ++ (r.out ++ (trimTrailingWs r.line ++ [NL]))),
+          { nBlank := 0, nBraces := r.nBraces, nParens := r.nParens,
+            hanging := hangingByte r.last, preproc := false },
+          r.tail)
+
 /-- The outer `for … len(src) > 0; src = remaining` of `FormatBytes`; returns what
 is appended to `dst` from here on.  `ii` = `initialIndent`. -/
 def loop (o : Opts) (ii : Nat) : Nat → St → Bytes → Option Bytes
   | 0, _, _ => none
   | f + 1, st, src0 =>
     if src0.isEmpty then some [] else
-    let src := trimLeadingWs src0
-    let lt := splitLine src
-    let line := lt.1
-    let tail := lt.2
-    match line with
-    | [] => loop o ii f { st with nBlank := st.nBlank + 1 } (tail.drop 1)
-    | c0 :: _ =>
-      let blanks := List.replicate st.nBlank NL
+    let lt := splitLine (trimLeadingWs src0)
+    match lt.1 with
+    | [] => loop o ii f { st with nBlank := st.nBlank + 1 } (lt.2.drop 1)
+    | c0 :: l =>
       if st.preproc || c0 == HASH then
-        let indent := ii + (if st.preproc then o.indentCount * 2 else 0)
-        let line' := trimTrailingWs line
-        let st' : St := { st with nBlank := 0, hanging := false, preproc := lastNonWs line' == BSLASH }
-        (loop o ii f st' (tail.drop 1)).map
-          (fun r => blanks ++ (List.replicate indent o.indentByte ++ (line' ++ NL :: r)))
+        let p := preprocLine o ii st (c0 :: l)
+        (loop o ii f p.2 (lt.2.drop 1)).map (fun r => List.replicate st.nBlank NL ++ (p.1 ++ r))
       else
-        let isExt := (c0 == 101 && hasPrefixAndBrace line extern) ||
-                     (c0 == 110 && hasPrefixAndBrace line namespace_)
-        let closeBraces := if isExt then 0 else countCloseBraces line
-        let nB : Int :=
-          if isExt then st.nBraces - 1
-          else if st.nBraces - closeBraces < 0 then 0 else st.nBraces - closeBraces
-        let indent := ii + (if nB > 0 then o.indentCount * nB.toNat else 0)
-                         + (if st.nParens > 0 || st.hanging then o.indentCount * 2 else 0)
-        let line1 := line.drop closeBraces
-        match scan (line1.length + tail.length + 1) nB st.nParens (lastNonWs line1) [] [] line1 tail with
+        match codeLine o ii st (c0 :: l) lt.2 with
         | none => none
-        | some r =>
-          let st' : St := { nBlank := 0, nBraces := r.nBraces, nParens := r.nParens,
-                            hanging := hangingByte r.last, preproc := false }
-          (loop o ii f st' (r.tail.drop 1)).map
-            (fun rest => blanks ++ (List.replicate indent o.indentByte ++
-              (line.take closeBraces ++ (r.out ++ (trimTrailingWs r.line ++ NL :: rest)))))
+        | some x => (loop o ii f x.2.1 (x.2.2.drop 1)).map (fun r => List.replicate st.nBlank NL ++ (x.1 ++ r))
 
 /-- `FormatBytes(nil, src, opts)` with explicit fuel. -/
 def formatFuel (fuel : Nat) (o : Opts) (src : Bytes) : Option Bytes :=
